@@ -128,11 +128,41 @@ pub fn contexts(l: L, title: &str, n: usize) -> Vec<(Vec<Rec>, usize)> {
     let unrelated = if l.is_cyrillic() { "щъ" } else { "zq" };
     let mut v = vec![(vec![rec(TARGET_ID, title, 5)], 10usize)];
     if n >= 2 {
-        // an identical, better-rated competitor first; limit exactly |store|
-        v.push((vec![rec(1, title, 9), rec(TARGET_ID, title, 5)], 2));
+        // an identical competitor with the highest possible rating first; limit exactly |store|
+        v.push((vec![rec(1, title, (1 << 31) - 1), rec(TARGET_ID, title, 0)], 2));
+    }
+    if n >= 4 {
+        // a crowd: 24 better-rated near-copies around the target, limit exactly |store| = 25
+        let mut recs: Vec<Rec> = Vec::new();
+        for i in 0..24 {
+            if i == 11 {
+                recs.push(rec(TARGET_ID, title, 1));
+            }
+            let t = match i % 3 {
+                0 => format!("{} {}", title, unrelated),
+                1 => format!("{} {}", unrelated, title),
+                _ => title.to_string(),
+            };
+            recs.push(rec(1000 + i, &t, 100 + i));
+        }
+        v.push((recs, 25));
     }
     if n >= 3 {
         v.push((vec![rec(TARGET_ID, title, 0), rec(1, &format!("{} {}", title, unrelated), 9), rec(2, unrelated, 7)], 3));
     }
     v
+}
+
+/// Words around the initial buffer capacities (20 / 21 / 34 / 35 letters), alone and next to short words.
+pub fn long_word_titles(l: L) -> Vec<String> {
+    let abc: Vec<char> = if l.is_cyrillic() { "абвгдежзиклмнопрстуфхцчшщэюя".chars().collect() } else { "abcdefghijklmnopqrstuvwxyz".chars().collect() };
+    let w = |n: usize, off: usize| -> String { abc.iter().cycle().skip(off).take(n).collect() };
+    let mut out = Vec::new();
+    for n in [19usize, 20, 21, 22, 33, 34, 35, 36] {
+        out.push(w(n, 0));
+        out.push(format!("{} {}", w(5, 3), w(n, 0)));
+        out.push(format!("{}-{}", w(n, 0), w(4, 7)));
+        out.push(format!("{} {}", w(n / 2, 0), w(n - n / 2, n / 2)));
+    }
+    out
 }
